@@ -254,11 +254,11 @@ int bufr_store_tables
 
          line1[0] = ( e4->encoding.scale >= 0 ) ? '+' : '-' ;
          bufr_putstring( bufr, line1, 1 );
-         sprintf( line1, "%3d", abs(e4->encoding.scale) );
+         sprintf( line1, "%3lld", llabs((long long)e4->encoding.scale) );
          bufr_putstring( bufr, line1, 3 );
          line1[0] = ( e4->encoding.reference >= 0 ) ? '+' : '-' ;
          bufr_putstring( bufr, line1, 1 );
-         sprintf( line1, "%10d", abs(e4->encoding.reference) );
+         sprintf( line1, "%10lld", llabs((long long)e4->encoding.reference) );
          bufr_putstring( bufr, line1, 10 );
          sprintf( line1, "%3d", e4->encoding.nbits );
          bufr_putstring( bufr, line1, 3 );
@@ -447,7 +447,7 @@ BUFR_Tables *bufr_extract_tables( BUFR_Dataset *dts )
                break;
             case 19 :
                str = bufr_value_get_string( bcv->value, &len );
-               eb.encoding.reference *= atoi( str );
+               eb.encoding.reference = (int)(eb.encoding.reference * atoll( str ));
                break;
             case 20 :
                str = bufr_value_get_string( bcv->value, &len );
